@@ -66,7 +66,7 @@ CONSTANTS NK, T,       \* keypers 0..NK-1 of ONE keyper set (keyper config index
                        \*   "wrapped" through the MessagingMiddleware (proposed repair GNO-1.diff)
 
 CS == INSTANCE ChainSyncProps
-SR == INSTANCE SigRuleProps WITH LenRule <- "equal", StoreRule <- "last"
+SR == INSTANCE SigRuleProps WITH LenRule <- "equal", StoreRule <- "last", MissRule <- "reject"
 G  == INSTANCE Gossip WITH N <- NK, T <- T, Rounds <- <<>>, Flavour <- "gnosis"
 
 ASSUME NEons = 1
@@ -166,7 +166,8 @@ SigCase(m) ==
                   b |-> IF i \in DOMAIN m.signers /\ m.signers[i] \in KeyperIdx THEN m.signers[i] ELSE NK,
                   o |-> ""]],
      mut |-> "",
-     ann |-> <<"S">>]       \* one keyper set announced for the eon, never re-announced
+     ann |-> <<"S">>,       \* one keyper set announced for the eon, never re-announced
+     key |-> "before"]      \* the eon key is stored before the keyper set is announced
 Verdict(outcomes) == IF outcomes = {SR!Accept} THEN "accept" ELSE "reject"
 
 (* gnosis DecryptionKeySharesHandler.ValidateMessage (extra present, sender index in range,
